@@ -293,6 +293,30 @@ def run(chk):
     C03.run_through(chk, fx, fns, closure, prefix="C04")
     C03.run_inplace(chk, fx, fns, prefix="C04")
     C03.run_items(chk, fx, prefix="C04")
+    # ---- C04.store: the action keeps the keywords it is given, in order, and hands exactly them to applyAction
+    r_st4 = chk.rule("C04.store", "ActionX keeps its keywords: addKeyword appends the keyword to the member sequence (push_back / emplace_back, nothing else), begin()/end() - what applyAction iterates over - are begin and end of that same sequence; the handler of ACTIONX in the SCHEDULE section hands every keyword of the block to addKeyword", floor=3)
+    ax4 = chk.facts(["opm/input/eclipse/Schedule/Action/ActionX.cpp"], files_re=r"^/repo/opm/input/eclipse/Schedule/Action/ActionX\.(cpp|hpp)$")
+    ak = [f for f in ax4.fns if f["n"] == "addKeyword" and (f.get("cls") or "").endswith("ActionX") and f.get("body")]
+    if len(ak) != 1:
+        raise core.AnalysisBroken("ActionX::addKeyword not found")
+    ak = ak[0]
+    kp = ak["params"][0]["n"]
+    body4 = [show(x) for x in stmt_list(ak["body"])]
+    m4 = re.fullmatch(r"this\.(\w+)\.(push_back|emplace_back)\(%s\)" % kp, body4[0]) if len(body4) == 1 else None
+    chk.instance(r_st4, "addKeyword", sample=dict(body=body4))
+    if not m4:
+        chk.violation(r_st4, "addKeyword", "ActionX::addKeyword does %s; it appends its argument to the action's keyword sequence - otherwise the action, when it triggers, applies fewer (or no) keywords than the same block inlined" % body4, ak["file"], ak["l"])
+    else:
+        seqm = m4.group(1)
+        for nm_ in ("begin", "end"):
+            bf = [f for f in ax4.fns if f["n"] == nm_ and (f.get("cls") or "").endswith("ActionX") and f.get("body")]
+            if len(bf) != 1:
+                raise core.AnalysisBroken("ActionX::%s not found" % nm_)
+            bt = [show(x) for x in stmt_list(bf[0]["body"])]
+            chk.instance(r_st4, nm_, sample=dict(body=bt))
+            if bt != ["return this.%s.%s();" % (seqm, nm_)]:
+                chk.violation(r_st4, nm_, "ActionX::%s() returns %s; applyAction iterates the action from begin() to end(), which are those of the keyword sequence `%s`" % (nm_, bt, seqm), bf[0]["file"], bf[0]["l"])
+
     # ---- C04.wellorder: the well names a keyword receives come in the model's well order on every route
     r_wo = chk.rule("C04.wellorder", "the list of wells a keyword handler receives is in well-definition order whatever it came from - the '?' of an ACTIONX (the matching wells, sorted by the step's WellMatcher), a well list, a pattern or a name: Schedule::wellNames(pattern, step, matching) returns only WellMatcher results; WellMatcher::wells returns a subsequence of the well order, a sorted list or at most one name; WellMatcher::sort delegates to NameOrder::sort, which orders by insertion index", floor=8)
     wx = chk.facts(["opm/input/eclipse/Schedule/Schedule.cpp", "opm/input/eclipse/Schedule/Well/WellMatcher.cpp", "opm/input/eclipse/Schedule/Well/NameOrder.cpp"])
